@@ -9,7 +9,7 @@ Property theorems only (lemmas: `Lemmas/EqlCover.lean`, `Lemmas/EqlCount.lean`; 
 Proved (unbounded): `C01_cover` on the cover fragment `Expr.Fc`; `C01_sound_complete_partial` on the fragment
 `SExpr.F2` with plain selected variables (same hypotheses as `C02_multiplicity`); `C01_sound_complete_F1_partial`
 on the larger fragment `SExpr.F1` (arbitrarily nested `not_`; selected attribute/index chains; selected variables
-that do not occur in the condition). Everything outside (Union, quantifiers, `flatten`, falsy domain values,
+that do not occur in the condition). Everything outside (Union, quantifiers, `flatten`,
 one variable feeding two selected expressions, empty domains) is left to the executable model + search; each
 recorded finding has its witness below as a `decide`d test.
 -/
@@ -21,15 +21,14 @@ values for the variables of `e` occur exactly once in their domains and which is
 **exactly one** result cell of `eval w e env`, and that cell's truth flag is the first-order truth value of `e`
 under `τ`: the result cells form a decision-tree partition of the assignment space with the truth of `e` constant
 on each cell. Conditional on both sides returning `.ok`. -/
-theorem C01_cover (w : World) (hw : DomTruthy w) (τ : Asg) (e : Expr)
+theorem C01_cover (w : World) (τ : Asg) (e : Expr)
     (hF : e.Fc = true) (hτ : ∀ v ∈ e.vars, ∃ x, τ.lookup v = some x ∧ (w.dom v).count x = 1)
     (hlit : LitNodup e) (env : Env) (rs : List (Env × Bool)) (b : Bool)
-    (htr : ∀ v x, (Key.var v, x) ∈ env → truthy x = true)
     (hfresh : ∀ id, Key.lit id ∈ e.nodes → env.lookup (.lit id) = none)
     (hag : agreesB τ env = true)
     (he : eval w e env = .ok rs) (hs : satE w e τ = .ok b) :
     (rs.filter fun p => agreesB τ p.1).map (·.2) = [b] :=
-  cover w hw τ e hF hτ hlit env rs b htr hfresh hag he hs
+  cover w τ e hF hτ hlit env rs b hfresh hag he hs
 
 /- Intended statement (DESIGN §5, fragment F1): the same set equality for every tree-shaped query over
    and_/or_/not_ with arbitrary `or_` (no Union under an odd number of `not_`), selections that may contain
@@ -40,17 +39,23 @@ theorem C01_cover (w : World) (hw : DomTruthy w) (τ : Asg) (e : Expr)
 returns are exactly the rows of the satisfying assignments: soundness (→) and completeness (←). -/
 theorem C01_sound_complete_partial (w : World) (q : SQuery) (c : SExpr)
     (hc : q.cond = some c) (hF : c.F2 = true) (hsel : selOK q.sel c = true)
-    (hdt : DomTruthy w) (hnd : ∀ v, (w.dom v).Nodup) (hlit : LitNodup (build c))
+    (hnd : ∀ v, (w.dom v).Nodup) (hlit : LitNodup (build c))
     {rows rows' : List (List Val)}
     (h1 : evalQuery w q.toQuery = .ok rows) (h2 : solutions w q = .ok rows') :
     ∀ r, r ∈ rows ↔ r ∈ rows' :=
-  fun _ => (C02_multiplicity w q c hc hF hsel hdt hnd hlit h1 h2).mem_iff
+  fun _ => (C02_multiplicity w q c hc hF hsel hnd hlit h1 h2).mem_iff
 
 /-- non-vacuity (test): the 3-object world and `F2` query of `Props/C02.lean` meet every hypothesis; the answer
 is non-empty (3 rows) and non-total (9 assignments) -/
 example : ∀ r, r ∈ [[Val.obj 0, .obj 0], [.obj 0, .obj 1], [.obj 1, .obj 1]] ↔
     r ∈ [[Val.obj 0, .obj 0], [.obj 0, .obj 1], [.obj 1, .obj 1]] :=
-  C01_sound_complete_partial c02nvW c02nvQ c02nvC rfl (by decide) (by decide) (domTruthy_of_B (by decide))
+  C01_sound_complete_partial c02nvW c02nvQ c02nvC rfl (by decide) (by decide)
+    (domsNodup_of_B (by decide)) (by decide) (by decide) (by decide)
+
+/-- non-vacuity on falsy values (test): the theorem now applies to the witness of the repaired F-C01-3
+(`and_(x >= 0, x < 2)` over `[0,1,2,3]`; `0` is falsy) -/
+example : ∀ r, r ∈ [[Val.int 0], [.int 1]] ↔ r ∈ [[Val.int 0], [.int 1]] :=
+  C01_sound_complete_partial cexFalsyW cexFalsyQ _ rfl (by decide) (by decide)
     (domsNodup_of_B (by decide)) (by decide) (by decide) (by decide)
 
 /-- **C01_sound_complete_F1_partial.** Soundness and completeness as sets of rows on the larger fragment F1:
@@ -58,18 +63,19 @@ conditions over `and_`, `or_` between conditions with the same variables and arb
 (`SExpr.F1`); selected expressions are `flatten`-free attribute/index chains over variables (`selF1`) — the
 variables may or may not occur in the condition (those that do not range over their whole domain) — and no
 variable feeds two selected expressions (`trigMultiSel q = false`: the negation of the trigger of F-C01-2).
-Side conditions: truthy, duplicate-free and — for the query's variables — non-empty domains (the negations of the
-triggers of F-C01-3 and F-C01-9), distinct literal ids. Conditional on both sides returning `.ok`. -/
+Side conditions: duplicate-free and — for the query's variables — non-empty domains (the negation of the
+trigger of F-C01-9), distinct literal ids. Conditional on both sides returning `.ok`. (Until fix commit `78cb732`
+repaired F-C01-3 the domains also had to be truthy.) -/
 theorem C01_sound_complete_F1_partial (w : World) (q : SQuery) (c : SExpr)
     (hc : q.cond = some c) (hF : c.F1 = true) (hsel : selF1 q.sel = true) (hms : trigMultiSel q = false)
-    (hdt : DomTruthy w) (hnd : ∀ v, (w.dom v).Nodup) (hne : ∀ v ∈ q.vars, w.dom v ≠ [])
+    (hnd : ∀ v, (w.dom v).Nodup) (hne : ∀ v ∈ q.vars, w.dom v ≠ [])
     (hlit : LitNodup (build c))
     {rows rows' : List (List Val)}
     (h1 : evalQuery w q.toQuery = .ok rows) (h2 : solutions w q = .ok rows') :
     ∀ r, r ∈ rows ↔ r ∈ rows' := by
   obtain ⟨sel, cond⟩ := q
   simp only at hc; subst hc
-  exact sound_complete_F1 w sel c hF hsel (hasDup_false_iff.mp hms) hdt hnd hne hlit h1 h2
+  exact sound_complete_F1 w sel c hF hsel (hasDup_false_iff.mp hms) hnd hne hlit h1 h2
 
 /-! non-vacuity (test) for F1: `set_of([x.a, y], not_(and_(x.a > 0, x.a < 2)))` over the 3-object world — a
 negated conjunction, a selected attribute, a selected variable that does not occur in the condition; 6 of the 9
@@ -80,13 +86,13 @@ def c01nvQ : SQuery := ⟨[.attr (.var 0) "a", .var 1], some c01nvC⟩
 
 example :
     c01nvQ.cond = some c01nvC ∧ c01nvC.F1 = true ∧ c01nvC.F2 = false ∧ selF1 c01nvQ.sel = true ∧
-    trigMultiSel c01nvQ = false ∧ DomTruthy c02nvW ∧ (∀ v, (c02nvW.dom v).Nodup) ∧
+    trigMultiSel c01nvQ = false ∧ (∀ v, (c02nvW.dom v).Nodup) ∧
     (∀ v ∈ c01nvQ.vars, c02nvW.dom v ≠ []) ∧ LitNodup (build c01nvC) ∧
     evalQuery c02nvW c01nvQ.toQuery = .ok [[.int 0, .obj 0], [.int 0, .obj 1], [.int 0, .obj 2],
       [.int 2, .obj 0], [.int 2, .obj 1], [.int 2, .obj 2]] ∧
     sameAnswers (evalQuery c02nvW c01nvQ.toQuery) (solutions c02nvW c01nvQ) = true ∧
     (assignments c02nvW c01nvQ.vars).length = 9 :=
-  ⟨rfl, by decide, by decide, by decide, by decide, domTruthy_of_B (by decide), domsNodup_of_B (by decide),
+  ⟨rfl, by decide, by decide, by decide, by decide, domsNodup_of_B (by decide),
     by decide, by decide, by decide, by decide, by decide⟩
 
 /-! ## Counter-examples (tests, by `decide` on the witnesses stored in `findings.d/C01.json`)
@@ -124,12 +130,36 @@ theorem C01_cex_selectIndependent :
     sameAnswers (evalQuery cex2W cex2Q.toQuery) (solutions cex2W cex2Q) = false := by
   decide
 
-/-- **C01_cex_falsyBound** (test, F-C01-3; = `C02_cex_falsyBound`). `and_(x >= 0, x < 2)` over `[0,1,2,3]`
-returns `[1]`: the solution `0` is dropped. -/
+/-- **C01_cex_falsyBound** (test; the witness of the REPAIRED finding F-C01-3, = `C02_cex_falsyBound`, name kept).
+`and_(x >= 0, x < 2)` over `[0,1,2,3]` used to return `[1]`: the solution `0` was dropped because an already bound
+variable with a falsy value was reported false even as an operand of a comparison. Fix commit `78cb732` repaired the
+engine (the flag of a bound variable is its truthiness only where the variable itself is a condition); the model
+follows, and on the same witness evaluation and specification now agree. -/
 theorem C01_cex_falsyBound :
-    evalQuery cexFalsyW cexFalsyQ.toQuery = .ok [[.int 1]] ∧
+    evalQuery cexFalsyW cexFalsyQ.toQuery = .ok [[.int 0], [.int 1]] ∧
     solutions cexFalsyW cexFalsyQ = .ok [[.int 0], [.int 1]] ∧
-    sameAnswers (evalQuery cexFalsyW cexFalsyQ.toQuery) (solutions cexFalsyW cexFalsyQ) = false := by
+    sameAnswers (evalQuery cexFalsyW cexFalsyQ.toQuery) (solutions cexFalsyW cexFalsyQ) = true := by
+  decide
+
+/-- **C01_boundVar_flag** (where truthiness still matters, and where it no longer does). A variable already bound to
+`x` yields one result: flagged `truthy x` when the variable itself is the condition (`.truth (.var v)`: its parent is a
+logical operator or it is the conditions root), flagged TRUE — whatever `x` is — when it is an operand. The first half
+is the legitimate use of truthiness that the repair keeps; the second half is the repair of F-C01-3. -/
+theorem C01_boundVar_flag (w : World) (v : VarId) (env : Env) (x : Val) (h : env.lookup (.var v) = some x) :
+    eval w (.truth (.var v)) env = .ok [(env, truthy x)] ∧
+    evalTerm w false (.var v) env = .ok [(env, x, true)] := by
+  constructor
+  · simp only [eval, evalTerm, evalVarAt, h, boundFlag]; rfl
+  · simp only [evalTerm, evalVarAt, h, boundFlag]; rfl
+
+/-- **C01_boundVar_asCondition** (test). `and_(x >= 0, x)` over `[0,1,2,3]`: the second conjunct IS the bound variable,
+so its falsy value `0` makes the conjunction false — `[1,2,3]`, which is also the first-order answer (the specification
+reads `.truth t` as "the value of `t` is truthy"). -/
+theorem C01_boundVar_asCondition :
+    evalQuery cexFalsyW ⟨[.var 0], some (.and (.cmp .ge (.var 0) (.lit 101 (.int 0))) (.truth (.var 0)))⟩ =
+      .ok [[.int 1], [.int 2], [.int 3]] ∧
+    solutions cexFalsyW ⟨[.var 0], some (.and (.cmp .ge (.var 0) (.lit 101 (.int 0))) (.truth (.var 0)))⟩ =
+      .ok [[.int 1], [.int 2], [.int 3]] := by
   decide
 
 def cex5W : World :=
